@@ -212,12 +212,19 @@ func (c *LocalReusableWorkflowCache) readCache(key string) (*ReusableWorkflowMet
 	return m, ok
 }
 
-func (c *LocalReusableWorkflowCache) writeCache(key string, val *ReusableWorkflowMetadata) {
+// writeCache remembers the value unless another goroutine remembered one for the same key while
+// this goroutine was reading the file. The value in the cache and whether it was already there are
+// returned so that only the first of them reports what it found.
+func (c *LocalReusableWorkflowCache) writeCache(key string, val *ReusableWorkflowMetadata) (*ReusableWorkflowMetadata, bool) {
 	c.mu.Lock()
+	defer c.mu.Unlock()
+	if m, ok := c.cache[key]; ok {
+		return m, true
+	}
 	if c.cache != nil { // The null cache, which is used when no project is found, has no map
 		c.cache[key] = val
 	}
-	c.mu.Unlock()
+	return val, false
 }
 
 // FindMetadata finds/parses a reusable workflow metadata located by the 'spec' argument. When project
@@ -242,7 +249,9 @@ func (c *LocalReusableWorkflowCache) FindMetadata(spec string) (*ReusableWorkflo
 	file := filepath.Join(c.proj.RootDir(), filepath.FromSlash(spec))
 	src, err := os.ReadFile(file)
 	if err != nil {
-		c.writeCache(spec, nil) // Remember the workflow file was not found
+		if m, cached := c.writeCache(spec, nil); cached { // Remember the workflow file was not found
+			return m, nil
+		}
 		// The OS error contains the file path as is. Keep the message in one line
 		msg := strings.ReplaceAll(err.Error(), "\n", " ")
 		return nil, fmt.Errorf("could not read reusable workflow file for %q: %s", spec, msg)
@@ -250,13 +259,15 @@ func (c *LocalReusableWorkflowCache) FindMetadata(spec string) (*ReusableWorkflo
 
 	m, err := parseReusableWorkflowMetadata(src)
 	if err != nil {
-		c.writeCache(spec, nil) // Remember the workflow file was invalid
+		if m, cached := c.writeCache(spec, nil); cached { // Remember the workflow file was invalid
+			return m, nil
+		}
 		msg := strings.ReplaceAll(err.Error(), "\n", " ")
 		return nil, fmt.Errorf("error while parsing reusable workflow %q: %s", spec, msg)
 	}
 
 	c.debug("New reusable workflow metadata at %s: %v", file, m)
-	c.writeCache(spec, m)
+	m, _ = c.writeCache(spec, m)
 	return m, nil
 }
 
